@@ -23,6 +23,8 @@
 //	             type term of the lattice model (harness/lat/doc.go) built here by lat.BuildCtor, NAME its String() (what the
 //	             merged map is ordered by last; checked against the built type by the predicate payload-mismatch)
 //   op keysubx A B : px.IsAssignable on the 22 default types
+//   op span xFORMAT NS : types.WrapTimespan(NS).Format(FORMAT) — the format strings of a Timespan (%D %H %M %S %L %N, the flags - _ 0, a width)
+//	             out: `text xHEX` | `reported PCORE_TIMESPAN_BAD_FORMAT_SPEC` | `fault`
 //
 // out: `text xHEX` | `reported <CODE>` | `fault` | `timeout`
 package c20
@@ -1264,6 +1266,9 @@ func exec(c px.Context, op string, args []sx.Sexp) core.Result {
 	if op == "back" && len(args) == 2 {
 		return execBack(c, args[0].MustStr(), args[1].MustInt())
 	}
+	if op == "span" && len(args) == 2 {
+		return execSpan(args[0].MustStr(), args[1].MustInt())
+	}
 	if op == "keysubx" && len(args) == 2 {
 		return core.Result{Out: sx.B(px.IsAssignable(keyType(args[0].Atom), keyType(args[1].Atom))), Pred: "ok", Tags: []string{"op:keysubx"}}
 	}
@@ -1843,6 +1848,178 @@ func execMergedTyped(c px.Context, fc *fctx, tag string, ve sx.Sexp, v px.Value,
 				k.user.n.d.raw, k.t.String(), wt, want, text))
 		}
 		return res("ok")
+	}
+	return res("ok")
+}
+
+// ---- Timespan.Format -------------------------------------------------------------------------------------------------------------
+
+type spanSeg struct {
+	lit      string
+	kind     byte // D H M S L N, 0 = literal
+	pad      byte // 0 (no padding), '0', ' '
+	width    int  // -1 = none
+	useTotal bool
+}
+
+// an independent reading of the format language: %[-_0][width]{D,H,M,S,L,N} and %%; ok = false: not a format
+func parseSpanFormat(f string) ([]spanSeg, bool) {
+	var segs []spanSeg
+	rs := []rune(f)
+	highest := -1
+	ord := map[byte]int{'N': 0, 'L': 1, 'S': 2, 'M': 3, 'H': 4, 'D': 5}
+	lit := func(r rune) {
+		if n := len(segs); n > 0 && segs[n-1].kind == 0 {
+			segs[n-1].lit += string(r)
+		} else {
+			segs = append(segs, spanSeg{lit: string(r)})
+		}
+	}
+	for i := 0; i < len(rs); i++ {
+		if rs[i] != '%' {
+			lit(rs[i])
+			continue
+		}
+		i++
+		seg := spanSeg{pad: '0', width: -1}
+		first := true
+		for ; ; i++ {
+			if i >= len(rs) {
+				return nil, false
+			}
+			c := rs[i]
+			switch {
+			case c == '%':
+				lit('%')
+			case (c == '-' || c == '_') && first:
+				if c == '-' {
+					seg.pad = 0
+				} else {
+					seg.pad = ' '
+				}
+				first = false
+				continue
+			case c == '0' && first:
+				seg.pad = '0'
+				first = false
+				continue
+			case c >= '0' && c <= '9':
+				if seg.width < 0 {
+					seg.width = 0
+				}
+				seg.width = seg.width*10 + int(c-'0')
+				first = false
+				continue
+			case strings.ContainsRune("DHMSLN", c):
+				seg.kind = byte(c)
+				if c == 'D' || highest < ord[byte(c)] {
+					highest = ord[byte(c)]
+				}
+				segs = append(segs, seg)
+			default:
+				return nil, false
+			}
+			break
+		}
+	}
+	for i := range segs {
+		if segs[i].kind != 0 && ord[segs[i].kind] == highest {
+			segs[i].useTotal = true
+		}
+	}
+	return segs, true
+}
+
+// span xFORMAT NS: Timespan(NS).Format(FORMAT).  Direct predicates on the implementation: total (text or the reported bad-format
+// error, no fmt marker); a format inside the language is accepted and one outside is rejected; the literal text appears verbatim
+// and in order; a padded value segment (0 or blank, not a fraction) is at least as wide as requested; and the segments of the
+// full format %D-%H:%M:%S.%N add up to the value
+func execSpan(format string, ns int64) core.Result {
+	out := deadline(func() string { return textOut(types.WrapTimespan(time.Duration(ns)).Format(format)) })
+	segs, valid := parseSpanFormat(format)
+	tags := []string{"op:span", "out:" + strings.SplitN(out, " ", 2)[0]}
+	res := func(pred string) core.Result {
+		return core.Result{Out: out, Pred: pred, NonTrivial: strings.Count(format, "%") > 1 || len(format) > 2, Tags: tags}
+	}
+	fail := func(class, detail string) core.Result {
+		r := core.Fail(out, class, oneLine(detail))
+		r.Tags = tags
+		return r
+	}
+	if out == "timeout" {
+		return fail("hang", "Timespan.Format did not finish within 2s")
+	}
+	if out == "fault" {
+		for _, sg := range segs {
+			if valid && sg.kind == 'N' && sg.width == 0 && !sg.useTotal {
+				// utils.Int64Pow(10, 0) is 0: the remainder of a nanosecond segment of width 0 divides by zero
+				// (known finding C20-span-nano-width-zero)
+				return fail("span-nano-width-zero", fmt.Sprintf("%q of %d: runtime error (integer divide by zero)", format, ns))
+			}
+		}
+		return fail("fault", "Timespan.Format raised a runtime fault")
+	}
+	text, isT := isText(out)
+	if isT && (strings.Contains(text, "%!(NOVERB)") || strings.Contains(text, "%!(BADWIDTH)")) {
+		// the width of a segment is beyond what fmt accepts: the model's fault goFmtNoVerb (known finding C20-span-width-limit)
+		out = "fault"
+		for _, sg := range segs {
+			if valid && sg.width > 1000000 {
+				return fail("span-width-limit", fmt.Sprintf("%q: a Go fmt error marker in the output: %.60q", format, text))
+			}
+		}
+		return fail("go-fmt-leak", fmt.Sprintf("%q: a Go fmt error marker in the output: %.60q", format, text))
+	}
+	if !utf8.ValidString(format) {
+		return res("n/a")
+	}
+	if !valid {
+		if out != "reported PCORE_TIMESPAN_BAD_FORMAT_SPEC" {
+			return fail("span-invalid-accepted", fmt.Sprintf("%q is outside the format language but gives %s", format, out))
+		}
+		return res("n/a")
+	}
+	if !isT {
+		return fail("span-valid-rejected", fmt.Sprintf("%q is a format but gives %s", format, out))
+	}
+	if strings.Contains(text, "%!") {
+		return fail("go-fmt-leak", fmt.Sprintf("%q: a Go fmt error marker in the output: %q", format, text))
+	}
+	// literals in order; padded segments wide enough
+	rest := text
+	if ns < 0 && ns != math.MinInt64 {
+		if !strings.HasPrefix(rest, "-") {
+			return fail("span-sign", fmt.Sprintf("%q of %d: no leading sign in %q", format, ns, text))
+		}
+		rest = rest[1:]
+	}
+	for i, sg := range segs {
+		if sg.kind == 0 {
+			j := strings.Index(rest, sg.lit)
+			if j < 0 || (i == 0 && j != 0) {
+				return fail("span-literal", fmt.Sprintf("%q of %d: the literal %q is not where it belongs in %q", format, ns, sg.lit, text))
+			}
+			rest = rest[j+len(sg.lit):]
+		}
+	}
+	if ns != math.MinInt64 && len(segs) == 1 && segs[0].kind != 0 && segs[0].pad != 0 && segs[0].width > 0 && strings.IndexByte("DHMS", segs[0].kind) >= 0 {
+		if utf8.RuneCountInString(rest) < segs[0].width {
+			return fail("span-too-narrow", fmt.Sprintf("%q of %d: %q is narrower than %d", format, ns, text, segs[0].width))
+		}
+	}
+	if format == "%D-%H:%M:%S.%N" && ns != math.MinInt64 {
+		var d, h, m, s, n int64
+		body := strings.TrimPrefix(text, "-")
+		if k, err := fmt.Sscanf(body, "%d-%d:%d:%d.%d", &d, &h, &m, &s, &n); err != nil || k != 5 {
+			return fail("span-sum", fmt.Sprintf("%q does not read as D-H:M:S.N", text))
+		}
+		abs := ns
+		if abs < 0 {
+			abs = -abs
+		}
+		if ((d*24+h)*60+m)*60*1000000000+s*1000000000+n != abs || h > 23 || m > 59 || s > 59 || n > 999999999 {
+			return fail("span-sum", fmt.Sprintf("%d renders %q, whose segments do not add up to it", ns, text))
+		}
 	}
 	return res("ok")
 }
